@@ -301,6 +301,13 @@ def C05(infos: List[EnumInfo], ctx: dict):
                                      "C05:%s:%s:%s" % (o.kind, method, cause),
                                      "%s in %s: not entailed: %s (%s)" % (o.kind, o.where, o.text, o.detail[:200]),
                                      where(info, "EnumIter", {"N": model.N, "method": method, "case": case, "obligation": o.text, "detail": o.detail[:600]})))
+        # premise of O4: get(0..N) is the list of enabled variants (dense, distinct, in order) -- shared with C04
+        keys = [k for k, _ in it.entries]
+        en = es.enabled()
+        if sorted(keys) != list(range(len(en))) or any(c.variant != v.name for (k, c), v in zip(sorted(it.entries, key=lambda x: x[0]), en)):
+            out.append(Violation("C05", "O4 premise: get(k), 0 <= k < N, enumerates exactly the enabled variants in order (the list the cursors range over)",
+                                 "C05:table-not-the-enabled-list:%s" % placement_class(es), "index table keys %s -> %s, enabled variants %s" % (keys, [c.variant for _k, c in it.entries], [v.name for v in en]),
+                                 where(info, "EnumIter", {"placement": placement_class(es)})))
         # trait surface of the iterator struct
         missing = [t for t in REQUIRED_ITER_TRAITS + ["core::fmt::Debug"] if t not in it.traits]
         if missing:
